@@ -47,9 +47,9 @@ def _mk(cls, c, tag=""):
             else:
                 kw["values"] = tuple(c.real(f"{tag}v{i}") for i in range(3))
         elif f.name == "label":
-            kw["label"] = "lab"
+            kw["label"] = ("lab", "", None)[int(c.int(f"{tag}label_kind", 0, 2))]
         elif f.name == "units" :
-            kw["units"] = "mrad"
+            kw["units"] = ("mrad", "", None)[int(c.int(f"{tag}units_kind", 0, 2))]  # unset (None) and empty text fields must survive too
         elif f.type in ("bool", bool) and f.name.startswith("_"):
             kw[f.name] = bool(c.bool(f"{tag}{f.name}"))
     return cls(**kw), kw
@@ -86,8 +86,8 @@ def R_RT(name):
     for f in dataclasses.fields(cls):
         if f.name in ('sampling', 'offset'): kw[f.name] = float(V.get(f.name, 0.37))
         elif f.name == 'values': kw['values'] = tuple((1.5 * i, -2.0 * i) for i in range(3)) if issubclass(cls, (AX.TiltAxis, AX.PositionsAxis)) else tuple(float(V.get(f'v{i}', i + 0.25)) for i in range(3))
-        elif f.name == 'label': kw['label'] = 'lab'
-        elif f.name == 'units': kw['units'] = 'mrad'
+        elif f.name == 'label': kw['label'] = ('lab', '', None)[int(V.get('label_kind', 0))]
+        elif f.name == 'units': kw['units'] = ('mrad', '', None)[int(V.get('units_kind', 0))]
         elif f.name.startswith('_') and isinstance(f.default, bool): kw[f.name] = bool(V.get(f.name, not f.default))
     a = cls(**kw)
     d = AX.axis_to_dict(a)
